@@ -54,8 +54,10 @@ crate::verif_common::harness! {
         let file: [u8; 20] = kani::any();
         let mut rd: &[u8] = &file[..];
         let r = KeySetProvider::load(&mut rd, kani::any());
-        kani::cover!(r.is_ok(), "a header-only file can be accepted");
-        kani::cover!(r.is_err(), "rejected");
+        // a file without keys can never yield a usable key set (primary < number of keys)
+        assert!(r.is_err(), "a key file holding no key is rejected");
+        kani::cover!(u32::from_be_bytes([file[16], file[17], file[18], file[19]]) == 0, "zero keys announced");
+        kani::cover!(file[0] == 0xff && file[1] == 0xff, "huge time field reachable");
     }
 }
 
@@ -248,15 +250,13 @@ crate::verif_common::harness! {
 
 // ---------------------------------------------------------------- canaries
 
-// FALSE: every file that consists of a header only is rejected.
+// FALSE: a truncated file (fewer than 20 header bytes) loads.
 crate::verif_common::harness! {
     #[kani::unwind(66)]
-    fn c27_canary_header_only_always_rejected() {
-        let (t, off, primary, len): (u64, u32, u32, u32) = (kani::any(), kani::any(), kani::any(), kani::any());
-        kani::assume(t < (1 << 40));
-        let file = header(t, off, primary, len);
+    fn c27_canary_truncated_header_loads() {
+        let file: [u8; 19] = kani::any();
         let mut rd: &[u8] = &file[..];
-        assert!(KeySetProvider::load(&mut rd, 1).is_err());
+        assert!(KeySetProvider::load(&mut rd, 1).is_ok());
     }
 }
 
